@@ -204,8 +204,33 @@ def generator_rule(run, rule, ast):
                           "%s; the installed layout keeps %s_k in cell %s" % (what, sec[:-1], astq.aff_show(exp)), (f["file"], node["l"]))
 
 
+def who_installs_rule(run, rule, ast):
+    """the methods' offsets are global state that calls read: they are written when tables are INSTALLED (install_gv, with the
+    v-tables they index), never while a registry is merely compiled - compile() of a changed registry, without installation, must
+    leave the installed offsets and the installed v-tables in agreement."""
+    writers = {}
+    for f in ast.funcs:
+        if not f.get("body") or not re.search(r"compiler<.*>::\w+$", f["name"]):
+            continue
+        for n in astq.walk(f["body"]):
+            hit = False
+            if n.get("k") == "CallExpr" and re.match(r"^std::(copy|copy_n|transform)<", n.get("callee") or "") and any(x.get("k") == "MemberExpr" and x.get("member") == SS for x in astq.walk(n)):
+                hit = True
+            if n.get("k") == "BinaryOperator" and n.get("op") == "=" and any(x.get("k") == "MemberExpr" and x.get("member") == SS for x in astq.walk(n["c"][0])):
+                hit = True
+            if hit:
+                writers.setdefault(f["name"].rsplit("::", 1)[1], (f, n))
+    if not writers:
+        return
+    bad = {k: v for k, v in writers.items() if k not in ("install_gv", "install_global_tables")}
+    run.instance(rule, "the methods' slots and strides are written by the installation step only (%s)" % sorted(writers), None, ok=not bad)
+    for k, (f, n) in bad.items():
+        run.violation(rule, "compiler::%s|installs-offsets" % k, "%s writes the methods' slots and strides: compiling a changed registry without installing it (a dry run, or re-installing an older result) leaves the installed v-tables with offsets that belong to other tables" % k, (f["file"], n["l"]))
+
+
 def installer_rule(run, rule, ast):
     """install_gv: slots copied to the start of the array, strides right after them; uni-methods: cell 0."""
+    who_installs_rule(run, rule, ast)
     for f in [f for f in ast.funcs if f.get("body") and f["name"].endswith("::install_gv")]:
         copies = []
         vardefs = {}
@@ -660,6 +685,27 @@ def check_static_offset_rule(run, rule, mod):
                     run.violation(rule, "method::check_static_offset|skipped", "a path through check_static_offset returns without comparing the static offset with the installed one (the check depends on more than its arguments)", f.where())
                     continue
                 run.instance(rule, "check_static_offset: every call compares actual with expected: %s" % re.sub(r"so_\w+_\d+::key", "K", f.dname), f.where(), ok=True)
+        # a mismatch never returns: whether or not the policy has a handler, and whatever the handler does, abort() follows
+        if cmps and len(cmps) == 1:
+            c0 = cmps[0]
+            br0 = [i for i in f.all_insts() if i.op == "br" and i.ops and i.ops[0] == ["i", c0.id]]
+            if len(br0) == 1:
+                t0, e0 = br0[0].get("succ")
+                ne0 = t0 if c0.get("pred") == "ne" else (e0 if c0.get("pred") == "eq" else None)
+                rets0 = {i.bb for i in f.all_insts() if i.op == "ret"}
+
+                def escapes0(b, seen):
+                    if b in seen:
+                        return False
+                    seen.add(b)
+                    if b in rets0:
+                        return True
+                    return any(escapes0(s2, seen) for s2 in f.succ(b))
+                if ne0 is not None:
+                    okr = not escapes0(ne0, set())
+                    run.instance(rule, "check_static_offset: a mismatch never returns to the caller: %s" % re.sub(r"so_\w+_\d+::key", "K", f.dname), f.where(), ok=okr)
+                    if not okr:
+                        run.violation(rule, "method::check_static_offset|mismatch-returns", "after a mismatch a path returns to the caller (the abort depends on the handler facet or on what the handler does): the call goes on with stale offsets", f.where())
         # what the error carries: `expected` and `actual` are the function's own two arguments (one each), nothing read from elsewhere
         S0 = sym.Sym(mod)
         en = "static_slot_error" if "static_slot_error" in f.dname else "static_stride_error"
@@ -693,7 +739,7 @@ def check(run):
     variants = [True] if run.tier == "quick" else [True, False]
     for nd in variants:
         ast = astq.Ast(common.ast_json(run, src, "c12_ast_%s" % ("nd" if nd else "dbg"), ndebug=nd,
-                                       funcs="generator::write_static_offsets|install_gv|decode_dispatch_data|encode_dispatch_data"))
+                                       funcs="generator::write_static_offsets|install_gv|decode_dispatch_data|encode_dispatch_data|detail::compiler<"))
         run.units.append({"unit": "c12_ast", "ndebug": nd, "functions": len([f for f in ast.funcs if f.get("body")])})
         generator_rule(run, r1, ast)
         installer_rule(run, r1, ast)
